@@ -125,7 +125,7 @@ Proof.
       * apply mbind_ok in Hx as (w & r1 & _ & Hx). inv_ret Hx. reflexivity.
       * apply mbind_ok in Hx as (w & r1 & _ & Hx). apply mbind_ok in Hx as (w2 & r2 & _ & Hx). inv_ret Hx. reflexivity.
       * apply mbind_ok in Hx as (w & r1 & _ & Hx). inv_ret Hx. reflexivity.
-  - apply mbind_ok in H as (ty & s1 & _ & H). inv_ret H. cbn. now rewrite app_nil_r.
+  - apply mbind_ok in H as (ty & s1 & _ & H). apply mbind_ok in H as (utv & stv & _ & H). inv_ret H. cbn. now rewrite app_nil_r.
   - apply mbind_ok in H as (ty & s1 & _ & H). inv_ret H. reflexivity.
 Qed.
 
